@@ -134,6 +134,8 @@ SUITES = {
              '7 kinds of target x (assignment, address handed to a writing callee in 12 expression/statement contexts); & missing on pointer arguments')],
     'C09': [('literal_range_lints', _literals, 'alpha parser (minus folding, signed/bit split), typer literal typing',
              '10 integer types x ~14 boundary values x up to 5 spellings x (typed by declaration, typed by suffix); 3 literals beyond 128 bits'),
+            ('invalid_lexemes_rejected', _lexd_invalid, 'which escapes, quotes and suffixes the lexers reject',
+             '48 inputs with one invalid lexeme (control characters, bad or unclosed escapes, unclosed quotes, bad digits, keyword and misspelt suffixes, stray symbols): rejected by both lexers'),
             ('alpha_lexer_tokens', _lexa, 'completeness of literal acceptance in the alpha lexer',
              'random token sequences (1..6 tokens) built from atoms with known kind, payload and span: integers at boundaries in 3 bases, strings/chars from escape elements, keywords, punctuation, identifiers, one-bad-escape literals')],
     'C11': [('word_layout', _layout, 'typer layout beyond align_struct',
@@ -157,12 +159,12 @@ SUITES = {
              'as C09.alpha_lexer_tokens with every line end written CRLF')],
     'C14': [('alpha_lexer_tokens', _lexa, 'agreement of the two lexers (each is verified against its own spec)', 'as C09.alpha_lexer_tokens'),
             ('delta_lexer_tokens_and_agreement', _lexd, 'classification of every lexeme by the second-generation lexer; agreement of the two lexers',
-             'the token sequences of C09.alpha_lexer_tokens through the second-generation lexer (kind, value type, payload by construction); 33 inputs with an invalid lexeme must be rejected by both lexers'),
+             'the token sequences of C09.alpha_lexer_tokens through the second-generation lexer (kind, value type, payload by construction); 48 inputs with an invalid lexeme must be rejected by both lexers'),
             ('alpha_lexer_tokens_crlf', _lexa_crlf, 'the trusted model of str::split_inclusive / strip_suffix', 'as C09.alpha_lexer_tokens with every line end written CRLF')],
     'C15': [('delta_front_end_crash_search', _delta_crash, 'XML dumps, recursion depth',
              'fixed seeds, boundary runs of every token (127..1000 repeats), inputs at the token limit, repository samples, token soup of length <= 4 (thorough: <= 6)'),
             ('invalid_lexemes_rejected', _lexd_invalid, 'which bytes and escapes the lexer accepts inside literals',
-             '33 inputs with one invalid lexeme (control characters in literals and between tokens, bad escapes, unclosed quotes, bad digits and suffixes, stray symbols): rejected by both lexers'),
+             '48 inputs with one invalid lexeme (control characters in literals and between tokens, bad or unclosed escapes, unclosed quotes, bad digits, keyword and misspelt suffixes, stray symbols): rejected by both lexers'),
             ('deep_nesting', _depth, 'recursion depth of the parser (unbounded stack is an assumption of the proof); the XML printer',
              '16 shapes of valid modules (nested expressions, blocks, ifs, literals, calls, types; long lists and chains) with 3000 levels/items, through (lex, parse, header) and through the XML dumps')],
     'C17': [('header_xml', _header, 'refs_ok (no reference crosses a zone) on the parser side; XML dump',
